@@ -36,7 +36,7 @@ ASSUMPTIONS = [
     "unambiguous discrimination is defined for pure states given as kets (the implementation works from the Gram matrix)",
 ]
 TOL = 1e-5
-FAMILIES = ("generic", "orthogonal", "dependent", "two", "gu", "mixed")
+FAMILIES = ("generic", "orthogonal", "dependent", "two", "gu", "mixed", "chain")
 
 
 def _nt(case):
@@ -46,6 +46,8 @@ def _nt(case):
         return "mixed"
     if case["family"] == "dependent":
         return "dependent"
+    if case["family"] == "chain":
+        return "neighbours-orthogonal,ends-overlap"
     if case["cplx"] and case["probs"] == "dyadic" and case["n"] >= 3:
         return "complex,nonuniform,n>=3"
     return None
